@@ -34,20 +34,15 @@ Proof.
   - apply IH. apply andb_true_iff in H. exact (proj2 H).
 Qed.
 
-Lemma cut_zero (a : addr) (p : N) : addr_wf a -> prefix_ok a p -> all_zero (dropN (p / 8 + 1) (a_oct a)).
-Proof.
-  intros W P. pose proof (proj2 (proj1 (check_prefix_spec a p W)) P) as C.
-  destruct (addr_wf_len a W) as [L F]. apply forallb_zero_all.
-  unfold check_prefix in C. destruct (a_fam a =? 1) eqn:E.
-  - eapply check_addr_bits_tail; [|exact C]. rewrite L. unfold fam_size. rewrite E. reflexivity.
-  - eapply check_addr_bits_tail; [|exact C]. rewrite L. unfold fam_size. rewrite E. reflexivity.
-Qed.
+(* every octet behind the significant ones is zero *)
+Lemma cut_zero (a : addr) (k : N) : addr_significant (a_oct a) <= k -> all_zero (dropN k (a_oct a)).
+Proof. intros H. apply forallb_zero_all. apply addr_significant_dropped. exact H. Qed.
 
-(* the encoder's cut: the octets up to and including the one that holds the last prefix bit *)
-Lemma addr_cut_renders (a : addr) (p : N) : addr_wf a -> prefix_ok a p ->
-  renders_addr a (takeN (p / 8 + 1) (a_oct a)).
+(* the encoder's cut: the octets up to the last non-zero one, or more (a minimum length) *)
+Lemma addr_cut_renders (a : addr) (k : N) : addr_significant (a_oct a) <= k ->
+  renders_addr a (takeN k (a_oct a)).
 Proof.
-  intros W P. pose proof (cut_zero a p W P) as Z. set (k := p / 8 + 1) in *.
+  intros P. pose proof (cut_zero a k P) as Z.
   destruct (N.le_gt_cases k (lenN (a_oct a))) as [H|H].
   - apply RA_cut; assumption.
   - assert (takeN k (a_oct a) = takeN (lenN (a_oct a)) (a_oct a)) as ->.
@@ -72,7 +67,7 @@ Proof.
     rewrite HB. unfold ecs_body.
     rewrite (u16b_be16 8), (u16b_be16 (4 + lenN (ecs_cut e))), (u16b_be16 (a_fam (e_addr e))),
             (u8b_is (e_src e)), (u8b_is (e_scope e)); try lia; [|apply addr_fam_small, W].
-    apply (RO_ecs e (ecs_cut e)). unfold ecs_cut, ecs_prefix. apply addr_cut_renders; assumption.
+    apply (RO_ecs e (ecs_cut e)). unfold ecs_cut, ecs_count. apply addr_cut_renders. lia.
   - rewrite (u16b_be16 10), (u16b_be16 (lenN (cookie_body c))) by lia.
     exact (RO_cookie c).
   - rewrite (u16b_be16 12) by lia. rewrite lenN_zeros, N2Nat.id, (u16b_be16 n) by lia.
@@ -133,7 +128,7 @@ Proof.
   rewrite (u16b_be16 (a_fam (i_addr i))) by (apply addr_fam_small, W).
   rewrite (u8b_is (i_prefix i)) by exact Hp.
   rewrite (u8b_is _) by (destruct (i_neg i); lia).
-  apply (RI_item i (apl_cut i)). unfold apl_cut. apply addr_cut_renders; assumption.
+  apply (RI_item i (apl_cut i)). unfold apl_cut. apply addr_cut_renders. apply N.le_refl.
 Qed.
 
 Theorem ren_rr_apl (r : rr) : apl_rr_wf r = true -> renP (enc_rr r) (fun pre w => renders_rr pre r w).
